@@ -147,3 +147,22 @@ def register(PROPS, CLASSIFIERS, REPLAY_RUNNERS):
         return r
     PROPS["C11"].setdefault("q_checks", []).append(c11_history_after_restore)
     PROPS["C11"].setdefault("lake_targets", []).append("driver_snap")
+
+    # ------------------------------------------------------------------ C12 over actor trees (c12actors.py)
+    PROPS["C12"]["q_checks"].append(_lazy("c12actors", "c12_actor_trees"))
+
+    def _c12_replay(case, obs, flavor):
+        """actor-tree cases carry their own payload (`case["c12a"]`); every other C12 replay is a plain cut-point case"""
+        if "c12a" in case:
+            return _call("c12actors", "replay_problems")(case["c12a"], flavor)
+        return _call("c12", "c12_replay_monitor")(case, obs, flavor)
+    PROPS["C12"]["oracles"] = [_c12_replay]
+
+    def _c12acls(name):
+        def f(prob, case, flavor):
+            from . import c12actors
+            return c12actors.CLASSIFIERS[name](prob, case, flavor)
+        return f
+    for _n in ("c12a-system-entry-of-deep-actor-lost-on-restore", "c12a-sync-restored-child-has-no-watcher-thread",
+               "c12a-system-entry-of-parked-actor-dropped", "c12a-async-resume-raises-on-stopped-child"):
+        CLASSIFIERS[_n] = _c12acls(_n)
